@@ -300,7 +300,7 @@ def depth_samples(case, r):
 
 def subs(ctx):
     return [Sub("depth_samples", depth_samples, strategy=depth_case_st, quick=150, thorough=1500),
-            Sub("thick_map", thick_map, strategy=c03.map_case_st(thick=True), quick=260, thorough=1000,
+            Sub("thick_map", thick_map, strategy=c03.map_case_st(thick=True), quick=360, thorough=1200,
                 required={"slab_thinner_than_cells": 0.15, "column_crosses_cells": 0.1, "resz_given": 0.2,
                           "op_sum": 0.04, "op_nanmean": 0.04, "window_omitted": 0.04, "operation_on_layer": 0.15,
                           "schedule_checked": 0.1})]
